@@ -322,6 +322,8 @@ func runC08(p *Prog, r *Report, tier string) {
 			"a success return does not report Write's own byte count under 'no error and complete write'", true)
 	}
 	checkSetAccessors(p, r, "R-VALUE.set-accessors")
+	// header bookkeeping: the length field of the header is the size of the one buffer that is written (C02's rule)
+	checkMsgAssembly(p, r)
 	// (5) imported sharing rule
 	checkSharing(p, r, "R-SHARE", "pkg/exporter", "ExportingProcess", map[string]string{
 		"pkg/exporter.ExportingProcess.jsonBufferLen": "written once by the constructor, read only on the Data/JSON path which no background goroutine takes",
